@@ -1,4 +1,5 @@
 import Naga.Driver.C07
+import Naga.Driver.C18
 
 /-! Line-protocol driver: `nagadrv <cmd> [args]`, one input line ↦ one output line. -/
 
@@ -14,4 +15,5 @@ def main (args : List String) : IO UInt32 := do
   let stdout ← IO.getStdout
   match args with
   | ["c07", model] => loop stdin stdout (Naga.Driver.C07.handle model); return 0
+  | ["c18"] => loop stdin stdout Naga.Driver.C18.handle; return 0
   | _ => IO.eprintln s!"nagadrv: unknown command {args}"; return 2
